@@ -613,9 +613,47 @@ def r6_specialised_equality(ctx, F):
                   "compiler than when it is hidden", fn=f, line=t.line)
 
 
+def r7_type_is_inline_positional(ctx, F):
+    """the `lambda x: type(x) == T` inlining replaces a call by a type test on its first positional argument without
+    binding arguments, so it is only sound for a def whose single parameter CAN be filled positionally: the
+    construction of InlineDefBody::ReturnTypeIs is guarded by a test of DefParamIndices::num_positional (a parameter
+    after `*` is keyword-only; `is_s('a')` must fail, inlined or not)"""
+    from kern import bool_local_edges
+    f = F.one(r"eval::compiler::def_inline::inline_def_body$")
+    sites = [st for st in f.stmts if st.kind.endswith("InlineDefBody::ReturnTypeIs") and st.bb not in f.cleanup]
+    if not sites:
+        ctx.bad("C02.R7", "type-is-inline:anchor", "anchor-missing: construction of InlineDefBody::ReturnTypeIs", fn=f)
+        return
+    guards = []
+    for st in f.stmts:
+        if not re.match(r"binop (Eq|Ne|Ge|Gt|Le|Lt)$", st.kind) or st.bb in f.cleanup:
+            continue
+        seen, work, txt = set(), re.findall(r"_\d+", st.ops[0]), ""
+        while work:
+            l = work.pop()
+            if l in seen:
+                continue
+            seen.add(l)
+            for s2 in f.stmts:
+                if s2.lhs_local == l:
+                    txt += " " + s2.text()
+                    work += re.findall(r"_\d+", s2.text())
+        if "DefParamIndices::num_positional}" in txt:
+            guards.append(st)
+    for site in sites:
+        ok = any(f.edge_dominates(e, site.bb) for g in guards
+                 for e in set(bool_local_edges(f, g.lhs, "true")) | set(bool_local_edges(f, g.lhs, "false")))
+        ctx.check(ok, "C02.R7", "type-is-inline:positional-parameter",
+                  "ReturnTypeIs is only built under a test of the number of positional parameters",
+                  "inline_def_body marks a def as `type(x) == T` inlinable without testing that its parameter can be "
+                  "passed positionally (DefParamIndices::num_positional): a call passing a keyword-only parameter "
+                  "positionally is replaced by a type test instead of failing", fn=f, line=site.line)
+
+
 def run(ctx):
     F = ctx.facts("core")
     r6_specialised_equality(ctx, F)
+    r7_type_is_inline_positional(ctx, F)
     r1_speculative(ctx, F)
     r2_purity(ctx, F)
     r3_folds(ctx, F)
